@@ -16,7 +16,7 @@ from litedram.frontend.avalon import LiteDRAMAvalonMM2Native
 from .nativeport import add_memory_env, byte_at, bit_at
 
 PROPERTY = "C11"
-LEVEL = "other"
+LEVEL = "proof"
 FUNCTIONS = ["litedram.frontend.avalon:LiteDRAMAvalonMM2Native.__init__",
              "litedram.frontend.adapter:LiteDRAMNativePortConverter.__init__"]
 ASSUMPTIONS = [
@@ -28,7 +28,7 @@ ASSUMPTIONS = [
     "liveness (all n beats eventually arrive) is outside a safety contract: covered only as reachability",
     "per configuration (width ratios 1, 2, 1/2; base address; burst lengths)",
 ]
-EXPLANATION = "bounded contract check on the real bridge with an Avalon master model and the NativePortSpec environment"
+EXPLANATION = "inductive contract of the bridge logic (beat counters, FIFO order) + bounded check with an Avalon master model and the NativePortSpec environment"
 
 
 class AvHarness(Module):
@@ -132,11 +132,143 @@ def av_contract(cfg):
     return c
 
 
+# ---- inductive contract of the bridge's own logic (equal widths: no converter in between) -----------------------------------
+
+class AvProofHarness(Module):
+    def __init__(self, cfg):
+        from vc.shims import capture_locals
+        from migen.genlib import fifo as mfifo
+        w = cfg.get("width", 16)
+        adr = cfg.get("adr_width", 6)
+        self.bus = av.AvalonMMInterface(data_width=w, adr_width=adr)
+        self.port = LiteDRAMNativePort("both", adr, w)
+        with capture_locals(LiteDRAMAvalonMM2Native.__init__, mfifo.SyncFIFO.__init__) as cap:
+            self.submodules.br = LiteDRAMAvalonMM2Native(self.bus, self.port, max_burst_length=cfg.get("mbl", 4),
+                                                         base_address=cfg.get("base", 0))
+        self.cap, self.L = cap, cap.of(self.br)
+        self.pick = Signal()
+        self._s = Signal()
+        self.comb += self._s.eq(self.pick)
+
+
+def av_proof_contract(cfg):
+    """address / count discipline of LiteDRAMAvalonMM2Native proved by induction for every burst length, every
+    waitrequest / port stall pattern: beat i of a write burst is queued with address+i and its own data / byte enables, the
+    queues keep order (watched beat through both real FIFOs); read command i of a read burst goes to address+i, exactly
+    burstcount commands and burstcount data beats; single accesses carry the latched address / data / enables"""
+    from .fifo_lemma import fifo_parts, add_fifo_invariants, add_watched_item, inner_sync_fifo
+    h = AvProofHarness(cfg)
+    b, port, L, br = h.bus, h.port, h.L, h.br
+    fsm = br.fsm
+    free = [b.address, b.read, b.write, b.burstcount, b.byteenable, b.writedata,
+            port.cmd.ready, port.wdata.ready, port.rdata.valid, port.rdata.data, h.pick]
+    c = Contract("AvalonMM2Native.logic", h, free, cfg=cfg)
+    aw = len(port.cmd.addr)
+    st = lambda f, *n: state_is(f, fsm, *n)
+    address, bc, crc, seen = L["address"], L["burst_count"], L["cmd_ready_count"], L["cmd_ready_seen"]
+    off = cfg.get("base", 0) >> log2_int(len(port.wdata.data) // 8)
+    mbl = cfg.get("mbl", 4)
+    rd, wr, wait = (lambda f: f.b(b.read)), (lambda f: f.b(b.write)), (lambda f: f.b(b.waitrequest))
+    BW = len(b.burstcount)
+    # Avalon master
+    c.ghost("held", "bool", False, lambda f: And(Or(rd(f), wr(f)), wait(f)))
+    for nm, sig in (("addr", b.address), ("bc", b.burstcount), ("be", b.byteenable), ("wd", b.writedata), ("rd", b.read), ("wr", b.write)):
+        c.ghost("p_" + nm, len(sig), 0, lambda f, sig=sig: f(sig))
+    c.assume("avm.never_read_and_write", lambda f: Not(And(rd(f), wr(f))))
+    c.assume("avm.command_held_while_waitrequest", lambda f: Implies(f.g.held, And(
+        f(b.address) == f.g.p_addr, f(b.burstcount) == f.g.p_bc, f(b.byteenable) == f.g.p_be,
+        f(b.writedata) == f.g.p_wd, f(b.read) == f.g.p_rd, f(b.write) == f.g.p_wr)))
+    c.assume("avm.burstcount_between_1_and_max_burst_length", lambda f: And(UGE(f(b.burstcount), 1), ULE(f(b.burstcount), BV(mbl, BW))))
+    c.assume("avm.no_read_inside_a_write_burst", lambda f: Implies(st(f, "BURST_WRITE"), Not(rd(f))))
+    c.assume("avm.burstcount_constant_inside_a_write_burst", lambda f: z3.BoolVal(True))
+    # native port: read data only for an outstanding read
+    racc = lambda f: And(f.b(port.cmd.valid), f.b(port.cmd.ready), Not(f.b(port.cmd.we)))
+    c.ghost("outst", 10, 0, lambda f: f.g.outst + If_(racc(f), BV(1, 10), BV(0, 10)) - If_(f.b(port.rdata.valid), BV(1, 10), BV(0, 10)))
+    c.assume("port.read_data_only_for_an_outstanding_read", lambda f: Implies(f.b(port.rdata.valid), f.g.outst != 0))
+    # ---- ghosts of the access in progress
+    start = lambda f: And(st(f, "START"), Or(rd(f), wr(f)))                       # latch
+    a_in = lambda f: z3.Extract(aw - 1, 0, zext(f(b.address), max(aw, len(b.address))) - BV(off, max(aw, len(b.address))))
+    c.ghost("a0", aw, 0, lambda f: If_(start(f), a_in(f), f.g.a0))
+    c.ghost("n0", 9, 0, lambda f: If_(start(f), zext(f(b.burstcount), 9), f.g.n0))
+    cacc = lambda f: And(f.b(port.cmd.valid), f.b(port.cmd.ready))
+    beat = lambda f: And(st(f, "BURST_WRITE"), wr(f), Not(wait(f)))
+    c.ghost("k", 9, 0, lambda f: If_(start(f), BV(0, 9), If_(Or(beat(f), And(st(f, "BURST_READ"), cacc(f))), f.g.k + 1, f.g.k)))
+    c.ghost("kd", 9, 0, lambda f: If_(start(f), BV(0, 9), If_(And(st(f, "BURST_READ"), f.b(port.rdata.valid)), f.g.kd + 1, f.g.kd)))
+    cf, wf = br.cmd_fifo, br.wdata_fifo
+    ci, _ = inner_sync_fifo(cf)
+    wi_, _ = inner_sync_fifo(wf)
+    Pc, Pw = fifo_parts(c, ci, h.cap), fifo_parts(c, wi_, h.cap)
+    add_fifo_invariants(c, Pc, "cmd_fifo")
+    add_fifo_invariants(c, Pw, "wdata_fifo")
+    Wc = add_watched_item(c, Pc, "wc", lambda f: f.b(h.pick))
+    Ww = add_watched_item(c, Pw, "ww", lambda f: f.b(h.pick))
+    c.invariant("state_in_range", lambda f: state_in_range(f, fsm))
+    c.invariant("W.write_burst_address_and_count", lambda f: Implies(st(f, "BURST_WRITE"), And(
+        f(address) == f.g.a0 + z3.Extract(aw - 1, 0, zext(f.g.k, max(aw, 9))), f(bc) == f.g.n0 - f.g.k, ULE(f.g.k, f.g.n0),
+        UGE(f.g.n0, BV(2, 9)), ULE(f.g.n0, BV(mbl, 9)))))
+    # native port (core): a write-data strobe only for an accepted write command whose data is still owed
+    wacc = lambda f: And(f.b(port.cmd.valid), f.b(port.cmd.ready), f.b(port.cmd.we))
+    wtk = lambda f: And(f.b(port.wdata.valid), f.b(port.wdata.ready))
+    c.ghost("wpend", 10, 0, lambda f: f.g.wpend + If_(wacc(f), BV(1, 10), BV(0, 10)) - If_(wtk(f), BV(1, 10), BV(0, 10)))
+    c.assume("port.write_data_strobe_only_for_an_accepted_write", lambda f: Implies(f.b(port.wdata.ready), f.g.wpend != 0))
+    c.invariant("W.queues_hold_the_same_beats_minus_those_already_issued", lambda f: And(
+        zext(f(Pw["level"]), 10) == zext(f(Pc["level"]), 10) + If_(st(f, "BURST_WRITE"), f.g.wpend, BV(0, 10)),
+        Implies(Not(st(f, "BURST_WRITE")), And(f(Pc["level"]) == 0, f(Pw["level"]) == 0)),
+        ULE(f.g.wpend, BV(mbl + 1, 10)),
+        Implies(st(f, "SINGLE_WRITE"), f.g.wpend == 1),
+        Implies(Not(st(f, "BURST_WRITE", "SINGLE_WRITE")), f.g.wpend == 0)))
+    c.ensures("W.beat_k_is_queued_with_address_plus_k_and_its_own_data", lambda f: And(
+        And(f.b(ci.we), f.b(ci.writable)) == beat(f), And(f.b(wi_.we), f.b(wi_.writable)) == beat(f),
+        Implies(beat(f), And(f(cf.sink.address) == f.g.a0 + z3.Extract(aw - 1, 0, zext(f.g.k, max(aw, 9))),
+                             f(wf.sink.data) == f(b.writedata), f(wf.sink.byteenable) == f(b.byteenable), ULT(f.g.k, f.g.n0)))))
+    c.ensures("W.native_write_command_and_data_come_from_the_queue_heads", lambda f: Implies(st(f, "BURST_WRITE"), And(
+        Implies(f.b(port.cmd.valid), And(f.b(port.cmd.we), f(port.cmd.addr) == f(cf.source.address), f.b(cf.source.valid),
+                                         f(Pw["level"]) != 0)),
+        f.b(port.wdata.valid) == f.b(wf.source.valid),
+        f(port.wdata.data) == f(wf.source.data), f(port.wdata.we) == f(wf.source.byteenable))))
+    c.ensures("W.no_native_write_outside_write_states", lambda f: Implies(
+        And(f.b(port.cmd.valid), f.b(port.cmd.we)), Or(st(f, "BURST_WRITE"), And(st(f, "START"), wr(f), f(b.burstcount) == 1))))
+    # (once all commands are out -- cmd_ready_seen -- the bridge keeps counting port.cmd.ready pulses in address /
+    # cmd_ready_count; they are not used any more, so the link is stated while commands are still being issued)
+    c.invariant("R.read_burst_address_and_counts", lambda f: Implies(st(f, "BURST_READ"), And(
+        Implies(Not(f.b(seen)), And(f(address) == f.g.a0 + z3.Extract(aw - 1, 0, zext(f.g.k, max(aw, 9))), f(crc) == f.g.n0 - f.g.k)),
+        f(bc) == f.g.n0 - f.g.kd,
+        f.b(seen) == (f.g.k == f.g.n0), ULE(f.g.k, f.g.n0), ULT(f.g.kd, f.g.n0), UGE(f.g.n0, BV(2, 9)),
+        zext(f.g.k - f.g.kd, 10) == f.g.outst, ULE(f.g.kd, f.g.k))))
+    c.invariant("nothing_outstanding_outside_read_states", lambda f: Implies(
+        Not(st(f, "BURST_READ", "SINGLE_READ")), f.g.outst == 0))
+    c.invariant("single_read_has_one_outstanding", lambda f: Implies(st(f, "SINGLE_READ"), f.g.outst == 1))
+    c.ensures("R.read_command_k_goes_to_address_plus_k_at_most_burstcount_commands", lambda f: Implies(
+        And(st(f, "BURST_READ"), f.b(port.cmd.valid)), And(Not(f.b(port.cmd.we)), ULT(f.g.k, f.g.n0),
+                                                           f(port.cmd.addr) == f.g.a0 + z3.Extract(aw - 1, 0, zext(f.g.k, max(aw, 9))))))
+    c.ensures("R.read_data_beat_is_the_port_word_no_beat_without_a_read", lambda f: And(
+        f.b(b.readdatavalid) == And(f.b(port.rdata.valid), st(f, "BURST_READ", "SINGLE_READ")),
+        Implies(f.b(b.readdatavalid), f(b.readdata) == f(port.rdata.data))))
+    c.ensures("S.single_access_command", lambda f: Implies(And(st(f, "START"), f.b(port.cmd.valid)), And(
+        f(port.cmd.addr) == a_in(f), f.b(port.cmd.we) == wr(f), f(b.burstcount) == 1, Or(rd(f), wr(f)))))
+    c.invariant("S.single_write_data_is_the_latched_beat", lambda f: True)
+    c.ghost("swd", len(b.writedata), 0, lambda f: If_(start(f), f(b.writedata), f.g.swd))
+    c.ghost("sbe", len(b.byteenable), 0, lambda f: If_(start(f), f(b.byteenable), f.g.sbe))
+    c.invariant("S.latched_single_write", lambda f: Implies(st(f, "SINGLE_WRITE"), And(
+        f(L["writedata"]) == f.g.swd, f(L["byteenable"]) == f.g.sbe)))
+    c.ensures("S.single_write_data", lambda f: Implies(st(f, "SINGLE_WRITE"), And(
+        f.b(port.wdata.valid), f(port.wdata.data) == f.g.swd, f(port.wdata.we) == f.g.sbe)))
+    c.ensures("beat_taken_exactly_when_not_waitrequest", lambda f: Implies(
+        And(Or(rd(f), wr(f)), Not(wait(f))), Or(
+            And(st(f, "START"), Or(And(rd(f), UGT(f(b.burstcount), 1)), f.b(port.cmd.ready))),
+            beat(f))))
+    c.cover("burst_write_of_max_length_drains", lambda f: And(st(f, "BURST_WRITE"), f.g.k == mbl, f(Pw["level"]) == 1), within=3 * mbl + 8)
+    c.cover("burst_read_completes", lambda f: And(st(f, "BURST_READ"), f.b(port.rdata.valid), f(bc) == 1), within=3 * mbl + 8)
+    return c
+
+
 CFGS = [dict(av=16, port=16), dict(av=16, port=8), dict(av=8, port=16), dict(av=16, port=16, base=0x8, mbl=2)]
 
 
 def tasks(tier):
     out = []
+    for cfg in ([dict(mbl=4), dict(mbl=8, base=0x40)] if tier == "quick" else [dict(mbl=4), dict(mbl=8, base=0x40), dict(mbl=16, width=32, base=0x100)]):
+        out.append(dict(fn="av_proof_contract", cfg=cfg, modes=["inductive", "cover", "difftest"], weight=8, difftest_cycles=80))
     d = 11 if tier == "quick" else 18
     for cfg in CFGS[:3] if tier == "quick" else CFGS:
         cfg = dict(cfg, depth=d, adr_width=3, mbl=cfg.get("mbl", 2 if tier == "quick" else 4))
